@@ -102,6 +102,9 @@ type Scen struct {
 	clean        bool
 	prevPreimage string
 	steps        []stepRecord
+	// intercept (optional, set by a property's own driver): takes over a step before it runs,
+	// e.g. to run it with a crash injected; handled=false lets doStep proceed as usual
+	intercept func(sp stepSpec) (handled bool, err error, panicked bool)
 }
 
 func tableName(role string) string {
@@ -244,7 +247,15 @@ type stepSpec struct {
 
 // doStep runs one entry point on the real service and records the case.
 func (sc *Scen) doStep(sp stepSpec) (err error, panicked bool) {
+	if sc.intercept != nil {
+		if handled, ierr, ipan := sc.intercept(sp); handled {
+			return ierr, ipan
+		}
+	}
 	e := sc.env
+	for _, h := range doStepHooks {
+		h(sc, &sp) // additive: per-property files may adjust the plan / wrap the call of a step (registerDoStepHook)
+	}
 	pre := ""
 	if !sp.fresh {
 		if sp.restart {
@@ -269,6 +280,7 @@ func (sc *Scen) doStep(sp stepSpec) (err error, panicked bool) {
 	}
 	suspAtStart := e.PeerSuspicious
 	e.beginStep(sp.plan, sp.precheck...)
+	extBeginStep(sc, &sp) // per-property hook (fsm_ext.go), e.g. arm a crash point
 	func() {
 		defer func() {
 			if rec := recover(); rec != nil {
@@ -333,6 +345,9 @@ func (sc *Scen) doStep(sp stepSpec) (err error, panicked bool) {
 		Effects: append([]string{}, e.effects...), Kind: sp.kind, NonTriv: len(e.effects) > 1,
 		JS: map[string]interface{}{"input": sp.kind, "state_after": string(post.Current), "removed": removed, "effects": e.effJSON},
 	}
+	if extRecord(sc, &rec, panicked) { // per-property hook (fsm_ext.go): true = the step is not recorded (simulated crash)
+		return err, panicked
+	}
 	if activeObserver != nil {
 		rec.Obs = activeObserver(sc, &rec)
 	}
@@ -368,6 +383,11 @@ var stepObservers = map[string]stepObserver{}
 func registerObserver(name string, f stepObserver) { stepObservers[name] = f }
 
 var activeObserver stepObserver
+
+// doStepHooks run at the start of every doStep (init-time registration by per-property files)
+var doStepHooks []func(sc *Scen, sp *stepSpec)
+
+func registerDoStepHook(h func(sc *Scen, sp *stepSpec)) { doStepHooks = append(doStepHooks, h) }
 
 func init() {
 	register("fsm", "drive the real swap state machines; emit step-level correspondence cases", func(args []string) error {
